@@ -192,6 +192,11 @@ def make_plan(ctx, cases, acc):
 def body(ctx):
     ctx.model("PermLaws.tla", timeout=1200)
     ctx.model("K_Transpose.tla", timeout=600)
+    ctx.model("K_ShufflePat.tla", timeout=600)
+    r = vf.tlc_model("K_ShufflePat.tla", "K_ShufflePatAsShipped.cfg", timeout=600)
+    ctx.cov["model_runs"].append(dict(cfg="K_ShufflePatAsShipped.cfg (regression of the model: must be violated)", ok=not r["ok"], distinct=r["distinct"], generated=r["generated"], wall_s=round(r["wall"], 1)))
+    if r["ok"]:
+        raise vf.InfraError("K_ShufflePat with the shipped detectors no longer exhibits shuffle<0,4,2,6> -> zip_lo: the model lost its teeth")
     acc = load_accept()
     text, cases = generate(ctx, acc)
     gh = hashlib.sha256(text.encode()).hexdigest()[:16]
